@@ -3,6 +3,7 @@
 //!   (14 2 ty (x ..))            variance  -> outcome value
 //!   (14 3 ty (n0 n1) rows fd)   -> (outcome row_features, outcome column_features,
 //!                                   outcome (shape data) of covariance(tensor, fd))
+//!   (14 4 ty route (n0 n1) rows fd)  one covariance route only (0 rows, 1 columns, 2 tensor)
 //!   (14 5 ty (x ..))            softmax   -> list
 //!   (14 6 ty p r)               f1_score  -> value
 //!   (14 7 ((m e) ..))           float oracle: softmax over f64 values m * 10^e -> four 0/1 flags
@@ -18,6 +19,32 @@ use easy_ml::matrices::Matrix;
 use easy_ml::numeric::extra::{Real, RealRef};
 use easy_ml::tensors::views::TensorView;
 use easy_ml::tensors::Tensor;
+
+/// An iterator adaptor that reports a chosen size hint (None: the trait's default `(0, None)`),
+/// possibly a LYING one: the statistics must depend on the items only.
+struct Hinted<I> {
+    it: I,
+    hint: Option<(usize, Option<usize>)>,
+}
+impl<I: Iterator> Iterator for Hinted<I> {
+    type Item = I::Item;
+    fn next(&mut self) -> Option<I::Item> {
+        self.it.next()
+    }
+    fn size_hint(&self) -> (usize, Option<usize>) {
+        self.hint.unwrap_or((0, None))
+    }
+}
+fn hints(n: usize) -> Vec<Option<(usize, Option<usize>)>> {
+    vec![
+        None,
+        Some((0, Some(n + 5))),
+        Some((n, None)),
+        Some((n.saturating_sub(1), Some(n.saturating_sub(1)))), // exact but too small
+        Some((n + 1, Some(n + 1))),                             // exact but too large
+        Some((0, Some(0))),
+    ]
+}
 
 pub fn run(args: &[Sx]) -> Sx {
     if args.len() < 2 {
@@ -101,6 +128,63 @@ where
             }
             cov::<T>(names[0], names[1], rows, fd)
         }
+        (4, 4) => {
+            let Some(route) = args[0].i64() else { return bad_case() };
+            let Some(names) = args[1].usizes() else { return bad_case() };
+            let Some(rows) = args[2].list() else { return bad_case() };
+            let Some(rows) = rows.iter().map(dec_list::<T>).collect::<Option<Vec<Vec<T>>>>() else {
+                return bad_case();
+            };
+            let Some(fd) = args[3].usize() else { return bad_case() };
+            if names.len() != 2 || names[0] == names[1] || rows.is_empty() || rows[0].is_empty() {
+                return bad_case();
+            }
+            if rows.iter().any(|r| r.len() != rows[0].len()) {
+                return bad_case();
+            }
+            let (r, c) = (rows.len(), rows[0].len());
+            let flat: Vec<T> = rows.iter().flatten().cloned().collect();
+            match route {
+                0 | 1 => {
+                    let matrix = Matrix::from(rows.clone());
+                    let res = guarded(|| {
+                        if route == 0 {
+                            linear_algebra::covariance_row_features::<T>(&matrix)
+                        } else {
+                            linear_algebra::covariance_column_features::<T>(&matrix)
+                        }
+                    });
+                    // the other entry point on the transposed data must agree
+                    let transposed = matrix.transpose();
+                    let other = guarded(|| {
+                        if route == 0 {
+                            linear_algebra::covariance_column_features::<T>(&transposed)
+                        } else {
+                            linear_algebra::covariance_row_features::<T>(&transposed)
+                        }
+                    });
+                    if other != res {
+                        return inconsistent(401);
+                    }
+                    match &res {
+                        Some(m) => ok(mat_sx(m)),
+                        None => panicked(),
+                    }
+                }
+                2 => {
+                    let tensor = Tensor::from([(dim(names[0]), r), (dim(names[1]), c)], flat);
+                    let res = guarded(|| linear_algebra::covariance::<T, _, _>(&tensor, dim(fd)));
+                    if guarded(|| TensorView::from(&tensor).covariance(dim(fd))) != res {
+                        return inconsistent(402);
+                    }
+                    match &res {
+                        Some(t) => ok(tensor_sx(t)),
+                        None => panicked(),
+                    }
+                }
+                _ => bad_case(),
+            }
+        }
         (5, 1) => {
             let Some(data) = dec_list::<T>(&args[0]) else { return bad_case() };
             let r = linear_algebra::softmax::<_, T>(data.iter().cloned());
@@ -113,6 +197,14 @@ where
                 let t = Tensor::from([(dim(0), data.len())], data.clone());
                 if linear_algebra::softmax::<_, T>(t.iter()) != r {
                     return inconsistent(502);
+                }
+            }
+            if linear_algebra::softmax::<_, T>(data.iter().cloned().filter(|_| true)) != r {
+                return inconsistent(504);
+            }
+            for (n, hint) in hints(data.len()).into_iter().enumerate() {
+                if linear_algebra::softmax::<_, T>(Hinted { it: data.iter().cloned(), hint }) != r {
+                    return inconsistent(510 + n as i64);
                 }
             }
             if linear_algebra::softmax::<_, T>(data.into_iter()) != r {
@@ -148,6 +240,37 @@ where
     let canonical: Option<T> = guarded(|| f::<T, _>(op, data.iter().cloned()));
     if guarded(|| f::<T, _>(op, data.clone().into_iter())) != canonical {
         return inconsistent(101);
+    }
+    // iterators WITHOUT an exact size hint, and with lying ones
+    if guarded(|| f::<T, _>(op, data.iter().cloned().filter(|_| true))) != canonical {
+        return inconsistent(110);
+    }
+    if guarded(|| f::<T, _>(op, data.iter().cloned().take_while(|_| true))) != canonical {
+        return inconsistent(111);
+    }
+    if guarded(|| f::<T, _>(op, data.iter().cloned().skip_while(|_| false))) != canonical {
+        return inconsistent(112);
+    }
+    if guarded(|| f::<T, _>(op, data.iter().flat_map(|x| std::iter::once(x.clone())))) != canonical {
+        return inconsistent(113);
+    }
+    {
+        let mut i = 0;
+        let from_fn = std::iter::from_fn(|| {
+            i += 1;
+            data.get(i - 1).cloned()
+        });
+        if guarded(std::panic::AssertUnwindSafe(|| f::<T, _>(op, from_fn))) != canonical {
+            return inconsistent(114);
+        }
+    }
+    for (n, hint) in hints(data.len()).into_iter().enumerate() {
+        if guarded(|| f::<T, _>(op, Hinted { it: data.iter().cloned(), hint })) != canonical {
+            return inconsistent(120 + n as i64);
+        }
+    }
+    if guarded(|| f::<T, _>(op, data.iter().cloned().chain(std::iter::empty()).peekable())) != canonical {
+        return inconsistent(127);
     }
     if !data.is_empty() {
         let row = Matrix::row(data.clone());
